@@ -1,8 +1,11 @@
 """Implementation side of C10: histories of read-only questions on real objects + the small cache-discipline ops.
 
-    hist <kind>.<mode> <objseed> <tok>…      ->  ok -                            no disagreement
-                                                 ok <classes> <item>…             classes = comma separated, sorted, distinct
-                                                                                  `<accessor>:<what>`; items = `<call>@<step>:<what>`
+    hist <kind>.<mode>.<e|s> <objseed> <tok>… -> ok -                            no disagreement
+                                                 (e|s: the recipe spells sequence types as SequenceType members | plain strings)
+                                                 ok fam=<families> <classes> <item>…
+                                                   families = `+`-joined sorted set of `family(item)` (see `family`)
+                                                   classes  = comma separated, sorted, distinct `<accessor>:<what>`
+                                                   items    = `<call>@<step>:<what>` (first 8)
       tokens: a call token (see `call_table`), or a filler
         P<n>   construct n unrelated Parents (ids only)            -> fills / evicts the process-wide Parent cache
         T:s / T:e  construct unrelated Parents whose sequence types are spelled as plain strings / as enum members
@@ -174,8 +177,20 @@ def diff(a, b, path=""):
             return []
         if a.startswith("seqtype:") and b.startswith("seqtype:") and a.split("|")[0] == b.split("|")[0]:
             return [path + "#spelling"]
+        if a.startswith("str:") and b.startswith("str:") and _unspell(a) == _unspell(b):
+            return [path + "#spelling"]       # a repr()/str() that prints a sequence type
         return [path]
     return [path]
+
+
+_SPELL = [(re.compile(r"<SequenceType\.\w+: '(\w+)'>"), r"\1"), (re.compile(r"SequenceType\.(\w+)"), lambda m: m.group(1).lower()),
+          (re.compile(r"'(chromosome|sequence_chunk)'"), r"\1")]
+
+
+def _unspell(s):
+    for rx, rep in _SPELL:
+        s = rx.sub(rep, s)
+    return s
 
 
 def _short(p):
@@ -497,6 +512,31 @@ def call_table(recipe, obj):
     return table
 
 
+CDS_SEQ_ACCESSORS = {"extract_sequence", "get_cds_sequence", "get_primary_cds_sequence", "has_valid_stop", "scan_codons",
+                     "translate", "has_in_frame_stop", "has_canonical_start_codon",
+                     "has_start_codon_in_specific_translation_table", "get_protein_sequence", "get_primary_protein"}
+CDS_WHATS = {"type(str!=Sequence)", "exc(AttributeError)", "noexc(NullParentException)", "noexc(NullSequenceException)",
+             "exc(StopIteration)"}
+SPELL_WHATS = {"val(seqtype-spelling)", "type(str!=SequenceType)", "type(SequenceType!=str)"}
+EXPORT_BASES = {"export_qualifiers", "to_gff", "to_genbank"}
+
+
+def family(tok, what):
+    """Purely syntactic grouping of a digest item, so that findings/C10.json can match narrowly:
+      seqtype-spelling  the only difference is str vs SequenceType of a sequence_type            (F-C10c)
+      qualifier-alias   a GFF3/GenBank/qualifier export changed qualifier sets of the object     (F-C10b)
+      cds-path          a CDS-sequence accessor answered with the wrong type / error             (F-C10a)
+      other             anything else — never matched by a finding"""
+    b = base_name(tok)
+    if what in SPELL_WHATS:
+        return "seqtype-spelling"
+    if what == "mut(qualifiers)" and b in EXPORT_BASES:
+        return "qualifier-alias"
+    if b in CDS_SEQ_ACCESSORS and (what in CDS_WHATS or (b == "scan_codons" and what == "val(len)")):
+        return "cds-path"
+    return "other"
+
+
 def base_name(tok):
     """`cds.translate:1,DEFAULT` -> `translate` (the accessor, without the child prefix and the argument variant)"""
     return tok.split(":")[0].split(".")[-1]
@@ -599,8 +639,8 @@ def is_filler(tok):
 
 
 def run_history(kindmode, seed, tokens, snap_every=True):
-    kind, mode = kindmode.split(".")
-    recipe = G.make(kind, random.Random(seed), mode)
+    kind, mode, spelling = (kindmode.split(".") + [None])[:3]
+    recipe = G.make(kind, random.Random(seed), mode, spelling)
     rng = random.Random(seed * 7919 + 13)
     # reference answers: fresh twin, cold caches, ONE question
     cold()
@@ -645,7 +685,8 @@ def run_history(kindmode, seed, tokens, snap_every=True):
     classes = ",".join(sorted({f"{base_name(tok)}:{what}" for tok, _, what in items}))
     shown = " ".join(f"{tok}@{step}:{what}" for tok, step, what in items[:8])
     more = f" +{len(items) - 8}" if len(items) > 8 else ""
-    return f"ok {classes} {shown}{more}"
+    fams = "+".join(sorted({family(tok, what) for tok, _, what in items}))
+    return f"ok fam={fams} {classes} {shown}{more}"
 
 
 # ----------------------------------------------------------------------------------------------
